@@ -22,8 +22,20 @@ def _init():
 def _call(args):
     modname, fname, chunk = args
     import importlib
-    f = getattr(importlib.import_module(modname), fname)
-    return [f(x) for x in chunk]
+    covdir = os.environ.get("VERIF_COVERAGE")      # tools/codecov.py: which code of /repo do the checks' cases execute?
+    cov = None
+    if covdir:
+        import coverage
+        cov = coverage.Coverage(data_file=os.path.join(covdir, ".coverage"), data_suffix=True, branch=True,
+                                source=[str(REPO / "nix_manipulator")])
+        cov.start()
+    try:
+        f = getattr(importlib.import_module(modname), fname)
+        return [f(x) for x in chunk]
+    finally:
+        if cov:
+            cov.stop()
+            cov.save()
 
 
 def pmap(modname: str, fname: str, items: list, procs: int | None = None, chunk: int = 200) -> list:
